@@ -101,6 +101,13 @@ def statement_rules():
     for d in ('int', 'uint', 'QString', 'enum:Mode', 'double', 'bool', 'ptr:VNode'):   # switch discriminant vs case label
         for k in keys:
             out.append(D.Program('binding', 'int', [('switch', REP[d], [(REP[k], [('return', I(1))])]), ('return', I(2))], tag='typing:switch-case'))
+    # array literals: all elements must have one common type (every pair / triple of representatives)
+    akeys = ['cint', 'int', 'uint', 'double', 'bool', 'QString', 'cstr', 'ptr:VNode', 'cnull', 'enum:Mode']
+    for n in (2, 3):
+        for combo in itertools.product(akeys, repeat=n):
+            out.append(D.Program('binding', 'int', [('let', 'let', 'v', None, ('arr', [REP[c] for c in combo])), ('return', G.P('a', 'ival'))], tag='typing:array-elements'))
+    for combo in itertools.product(akeys, repeat=2):
+        out.append(D.Program('binding', 'QStringList', ('arr', [REP[c] for c in combo]), tag='typing:array-elements'))
     # callbacks: property assignment, read-only property, method arguments
     for prop in ('ival', 'uval', 'dval', 'flag', 'sval', 'next', 'mode', 'items', 'cval'):
         for k in keys:
